@@ -352,3 +352,34 @@ pub enum EShapeMixed {
     Named { a: u16 },
     Tuple(Vec<u8>) = 7,
 }
+
+// ---- field types that share their last path segment but are different types (each must enter IS_ZERO_COPY,
+// MaxSizeOf and the ZeroCopy probes by itself; a derive that keys field types by name loses the second one)
+pub mod same_a {
+    use epserde::prelude::*;
+    #[derive(Epserde, Debug, Clone, Copy, PartialEq)]
+    #[repr(C)]
+    #[zero_copy]
+    pub struct Handle { pub x: u32 }
+}
+pub mod same_b {
+    use epserde::prelude::*;
+    #[derive(Epserde, Debug, Clone, Copy, PartialEq)]
+    #[repr(C)]
+    #[zero_copy]
+    pub struct Handle { pub y: u64, pub z: u8 }
+}
+#[derive(Epserde, Debug, Clone, Copy, PartialEq)]
+#[repr(C)]
+#[zero_copy]
+pub struct ZSameName { pub a: same_a::Handle, pub b: same_b::Handle }
+#[derive(Epserde, Debug, Clone, Copy, PartialEq)]
+#[repr(C)]
+#[zero_copy]
+pub struct ZSameGeneric { pub p: ZWhere<u8>, pub q: ZWhere<u64>, pub r: [u16; 2], pub s: [u64; 2] }
+#[derive(Epserde, Debug, Clone, PartialEq)]
+pub struct SSameName { pub a: same_a::Handle, pub b: Vec<same_b::Handle>, pub c: same_b::Handle }
+pub type DZSameName = <ZSameName as DeserializeInner>::DeserType<'static>;
+pub type DSSameName = <SSameName as DeserializeInner>::DeserType<'static>;
+pub const ZC_ZSAMENAME: bool = <ZSameName as SerializeInner>::IS_ZERO_COPY;
+pub const ZC_ZSAMEGENERIC: bool = <ZSameGeneric as SerializeInner>::IS_ZERO_COPY;
